@@ -13,7 +13,9 @@ import fcntl, hashlib, json, os, random, re, shutil, subprocess, sys, time
 ROOT = os.path.dirname(os.path.dirname(os.path.abspath(__file__)))
 REPO = os.environ.get("VERIF_REPO", "/repo")
 COQ = os.path.join(ROOT, "coq")
-BUILD = os.path.join(ROOT, "build")
+# binaries and object caches of a scratch copy of the repository (VERIF_REPO=...) are kept apart from those of /repo, so that a run
+# against a modified tree can never hand a stale or foreign binary to a concurrent run against /repo
+BUILD = os.path.join(ROOT, "build") if REPO == "/repo" else os.path.join(ROOT, "build", "alt-" + hashlib.sha256(REPO.encode()).hexdigest()[:8])
 NPROC = os.cpu_count() or 4
 
 ALLOWED_AXIOMS = {
